@@ -677,6 +677,36 @@ fn tree_panel(tier: Tier) -> Vec<(String, Tree)> {
             out.push((format!("{} (zero / NaN constants of the other sign)", p.describe()), t));
         }
     });
+    // trees that SHARE sub-trees (the same Arc) with each other: pointer equality
+    // of a shared part must only short-cut that part, whichever operand slot
+    // it sits in and whichever slot the difference sits in
+    {
+        let pool: Vec<(&str, Tree)> = vec![
+            ("x", Tree::x()),
+            ("y", Tree::y()),
+            ("1.5", Tree::constant(1.5)),
+            ("2z", Tree::z() * 2.0),
+            ("sin(x+y)", (Tree::x() + Tree::y()).sin()),
+        ];
+        let mut d1: Vec<(String, Tree)> = vec![];
+        for (an, a) in &pool {
+            for (bn, b) in &pool {
+                for (on, op) in [("add", B::Add), ("sub", B::Sub), ("min", B::Min)] {
+                    d1.push((format!("shared: {on}({an}, {bn})"), tree_bin(op, a, b)));
+                }
+            }
+            d1.push((format!("shared: abs({an})"), a.abs()));
+        }
+        for (n, t) in d1.iter().step_by(5) {
+            for (an, a) in &pool {
+                out.push((format!("shared: mul({n}, {an})"), t.clone() * a.clone()));
+                out.push((format!("shared: mul({an}, {n})"), a.clone() * t.clone()));
+                out.push((format!("shared: remap_xyz({n}; {an}, y, 2z)"), t.remap_xyz(a.clone(), pool[1].1.clone(), pool[3].1.clone())));
+                out.push((format!("shared: remap_xyz({n}; x, {an}, 2z)"), t.remap_xyz(pool[0].1.clone(), a.clone(), pool[3].1.clone())));
+            }
+        }
+        out.extend(d1);
+    }
     let (x, y, z) = Tree::axes();
     let targets = [x.clone() + y.clone() * 2.0, x.clone().min(z.clone())];
     let subs = [x.clone(), y.clone(), z.clone() + 1.0, Tree::constant(0.0), Tree::constant(-0.0)];
